@@ -463,7 +463,7 @@ def gen_c03(rng, n, prefix="w"):
             data = rng.choice([b"", b"<!DOCTYPE html>", b"<p>before"]) + b"<" + ns.encode() + rng.choice([b"", b" viewBox='0 0 1 1'"]) + b">" + c03_island(rng, "svg" if ns == "svg" else "mathml") + b"</" + ns.encode() + b">" + rng.choice([b"", b"<p>after</p>", b"<textarea><b></textarea>"])
         ch = chunkings(rng, data)
         ops = ",".join(["W" + c.hex() for c in ch] + ["E"])
-        seed = 100000 if rng.randrange(3) else rng.randrange(1, 900)       # capture everything, or a sparse capture policy
+        seed = 2000 if rng.randrange(3) else rng.randrange(1, 900)       # capture everything, or a sparse capture policy
         yield "L1 %s%d.s seed=%d strict=1 ops=%s" % (prefix, i, seed, ops)
         yield "L1 %s%d.n seed=%d strict=0 ops=%s" % (prefix, i, seed, ops)
 
